@@ -1107,7 +1107,9 @@ func (r *messageReader) Read(b []byte) (int, error) {
 	}
 
 	err := c.readErr
-	if err == io.EOF && c.messageReader == r {
+	if err == io.EOF && c.messageReader == r && (c.readRemaining > 0 || !c.readFinal) {
+		// The transport ended inside the message. (When the last bytes of
+		// the message came together with io.EOF, io.EOF is the right answer.)
 		err = errUnexpectedEOF
 	}
 	return 0, err
